@@ -697,4 +697,81 @@ theorem fresh_wf (b g n md rn rd : Nat) : (Store.fresh b g n md rn rd).WF := by
 theorem room_fresh (b g n md rn rd : Nat) : (Store.fresh b g n md rn rd).room = b + g + n + md := by
   simp only [Store.room, Store.total, Store.fresh]; omega
 
+theorem paid_nonneg (op : Op) (r : Ret) : 0 ≤ paid op r := by
+  unfold paid; split <;> omega
+
+theorem spentOf_nonneg : ∀ (ops : List Op) (rs : List Ret), 0 ≤ spentOf ops rs
+  | [], _ => by simp [spentOf]
+  | _ :: _, [] => by simp [spentOf]
+  | op :: ops, r :: rs => by
+    have := paid_nonneg op r; have := spentOf_nonneg ops rs
+    simp only [spentOf]; omega
+
+/-- The loop `while store[i].consume(cost, cur, allow_debt, prio): <body>` where `<body>` is any fixed list of
+    calls on the colony, run for at most `fuel` iterations.  Returns how many iterations completed and whether
+    the loop was left because the spend was refused (`false` = the fuel ran out first). -/
+def payLoop (cls : Classifier) (i cost : Nat) (cur : Cur) (d : Bool) (p : Nat) (body : List Op) :
+    Nat → Sys → Nat × Bool
+  | 0, _ => (0, false)
+  | fuel + 1, sys =>
+    let r := step cls sys (.consume i cost cur d p)
+    if r.2 = .bool true then
+      let rest := payLoop cls i cost cur d p body fuel (run cls r.1 body).1
+      (rest.1 + 1, rest.2)
+    else (0, true)
+
+theorem payLoop_spec (cls : Classifier) (i cost : Nat) (cur : Cur) (d : Bool) (p : Nat) (body : List Op)
+    (hc : 1 ≤ cost) (hb : ∀ op ∈ body, op.inflow = false) :
+    ∀ (fuel : Nat) (sys : Sys), Sys.WF sys →
+      ((payLoop cls i cost cur d p body fuel sys).1 : Int) ≤ sumOf Store.room sys ∧
+      (sumOf Store.room sys < fuel → (payLoop cls i cost cur d p body fuel sys).2 = true)
+  | 0, sys, wf => by
+    have := sumOf_nonneg Store.room room_nonneg sys wf
+    simp only [payLoop]; omega
+  | fuel + 1, sys, wf => by
+    have h0 := sumOf_nonneg Store.room room_nonneg sys wf
+    simp only [payLoop]
+    split
+    · rename_i hr
+      have h1 := step_pot pot_room cls sys (.consume i cost cur d p) (fun _ _ => wf) rfl
+      rw [hr] at h1; simp only [paid] at h1
+      have wf1 := step_wf cls sys (.consume i cost cur d p) wf
+      have h2 := run_pot pot_room cls body _ wf1 hb
+      have h3 := spentOf_nonneg body (run cls (step cls sys (.consume i cost cur d p)).1 body).2
+      have ih := payLoop_spec cls i cost cur d p body hc hb fuel _ (run_wf cls body _ wf1)
+      constructor
+      · have := ih.1; simp only []; omega
+      · intro hf; exact ih.2 (by omega)
+    · exact ⟨by simpa using h0, fun _ => rfl⟩
+
+
+/-- a refused transfer changes nothing -/
+theorem step_transfer_refused (cls : Classifier) (sys : Sys) (i j n : Nat) (cur : Cur)
+    (h : (step cls sys (.transfer i j n cur)).2 = .bool false) : (step cls sys (.transfer i j n cur)).1 = sys := by
+  simp only [step] at h ⊢
+  cases hi : sys[i]? with
+  | none => simp
+  | some a =>
+    cases hj : sys[j]? with
+    | none => simp
+    | some b0 =>
+      simp only [hi, hj] at h ⊢
+      cases hok : (withdraw a n cur).2 with
+      | false =>
+        have e := (withdraw_spec a n cur).fail hok
+        simp only [Bool.false_eq_true, reduceIte, e]
+        have hlt := lt_of_get hi
+        have : sys[i] = a := by
+          have := List.getElem?_eq_some_iff.mp hi; obtain ⟨_, h2⟩ := this; exact h2
+        rw [← this]; exact List.set_getElem_self hlt
+      | true =>
+        simp only [hok, reduceIte] at h
+        rw [onStore_ret] at h
+        cases hb : (sys.set i (withdraw a n cur).1)[j]? with
+        | none => rw [hb] at h; simp at h
+        | some b =>
+          rw [hb] at h
+          simp only [deposit, (regenerate_spec cls b n cur).2] at h
+          simp at h
+
 end Operon.Atp
